@@ -114,6 +114,7 @@ static json reduceGot(const json& events) {
         const std::string k = e[0];
         if (k == "ent") out.push_back({"ent", e[1]});
         else if (k == "not" || k == "att" || k == "el" || k == "xd") continue;
+        else if (k == "err" && e[1] == "warning") continue;       // warnings are at user option (e.g. a second declaration of an attribute)
         else if (k == "se") {
             json x = e;
             for (auto& a : x[4]) if (a[2] == "xmlns") a[0] = nullptr;
@@ -126,6 +127,18 @@ static std::string firstDiff(const json& exp, const json& got) {
     size_t n = std::min(exp.size(), got.size());
     for (size_t i = 0; i < n; i++) if (exp[i] != got[i]) return "event " + std::to_string(i) + ": expected " + exp[i].dump() + " got " + got[i].dump();
     if (exp.size() != got.size()) return "event " + std::to_string(n) + ": " + (exp.size() > n ? "missing " + exp[n].dump() : "extra " + got[n].dump());
+    return "";
+}
+// for a difference inside the attribute list: which field of which kind of attribute (type and specified come from the specification)
+static std::string attrDetail(const json& expEv, const json& gotEv, const json& infoset) {
+    const json &ea = expEv[4], &ga = gotEv[4];
+    if (ea.size() != ga.size()) return "count";
+    for (size_t i = 0; i < ea.size(); i++) if (ea[i] != ga[i]) {
+        std::string field = ea[i][2] != ga[i][2] ? "name" : ea[i][3] != ga[i][3] ? "value" : ea[i][4] != ga[i][4] ? "specified" : ea[i][5] != ga[i][5] ? "type" : "uri";
+        std::string type = "?", spec = "?";
+        for (auto& e : infoset) if (e[0] == "se" && e[1] == expEv[3]) for (auto& a : e[3]) if (a[0] == ea[i][2]) { type = a[3]; spec = a[2].get<bool>() ? "true" : "false"; }
+        return "type=" + type + ",specified=" + spec + ",field=" + field;
+    }
     return "";
 }
 static std::string diffKind(const json& exp, const json& got) {
@@ -253,6 +266,7 @@ static int modeT(const std::string& what, uint64_t seed) {
             for (size_t i = 0; i < M->size(); i++) {
                 Cfg& x = (*M)[i];
                 if (c.hasDT && x.sgOrWf()) continue;
+                if (x.c.scanner == "SGXMLScanner" && !x.c.namespaces) continue;   // the schema scanner always does namespaces; the adapters were told not to
                 if (x.nsEffective() ? c.fOn : c.fOff) continue;        // not an accepted document under this configuration
                 applicable++;
                 allApis.insert(pd::apiName(x.c.api));
@@ -263,7 +277,11 @@ static int modeT(const std::string& what, uint64_t seed) {
                 json got = reduceGot(r.events);
                 stat += "\tcompared";
                 if (exp != got) {
-                    std::string kind = diffKind(exp, got);
+                    // does the difference come from the document or from what this (reused) parser object parsed before?
+                    pd::Result fr = pd::parseBytes(c.doc.data(), c.doc.size(), x.c);
+                    const bool history = !fr.rejected() && reduceGot(fr.events) == exp;
+                    std::string kind = (history ? "history:" : "") + diffKind(exp, got);
+                    if (history) x.s.reset(new pd::Session(x.c));
                     if (byKind[kind].empty()) { firstWhy[kind] = firstDiff(exp, got); firstGot[kind] = got; firstExp[kind] = exp; }
                     byKind[kind].push_back(i);
                 }
@@ -280,11 +298,16 @@ static int modeT(const std::string& what, uint64_t seed) {
                     if (tags.size() < 12) tags.push_back(x.c.tag());
                 }
                 Cfg& x0 = (*M)[kv.second[0]];
-                pd::Result fresh = pd::parseBytes(c.doc.data(), c.doc.size(), x0.c);
-                json cls = {{"kind", "infoset"}, {"diff", kv.first}, {"prof", c.prof}, {"apis", joinSet(apis, 10)}, {"scanners", joinSet(scs, c.hasDT ? 2 : 4)}, {"ns", joinSet(nss, 2)},
-                            {"fresh_parser_same", reduceGot(fresh.events) == firstGot[kv.first]}};
+                const bool history = kv.first.compare(0, 8, "history:") == 0;
+                std::string detail;
+                if (kv.first == "se.attrs") {
+                    const json &fe = firstExp[kv.first], &fg = firstGot[kv.first];
+                    for (size_t q = 0; q < std::min(fe.size(), fg.size()); q++) if (fe[q] != fg[q]) { detail = attrDetail(fe[q], fg[q], c.j[6]); break; }
+                }
+                json cls = {{"kind", history ? "history-dependence" : "infoset"}, {"diff", history ? kv.first.substr(8) : kv.first}, {"detail", detail}, {"apis", joinSet(apis, 10)}, {"scanners", joinSet(scs, c.hasDT ? 2 : 4)}, {"ns", joinSet(nss, 2)}};
                 out += dumpLine({{"t", "mismatch"}, {"cls", cls},
-                                 {"why", "reported content differs from the specification's infoset (" + std::to_string(kv.second.size()) + " of " + std::to_string(applicable) +
+                                 {"why", std::string(history ? "a REUSED parser object reports content that differs from the specification's infoset (a fresh parser is right) ("
+                                                             : "reported content differs from the specification's infoset (") + std::to_string(kv.second.size()) + " of " + std::to_string(applicable) +
                                              " configurations, e.g. " + x0.c.tag() + "): " + firstWhy[kv.first] + "; document: " + printable(c.doc).substr(0, 200)},
                                  {"case", {{"mode", "T"}, {"check", "c03"}, {"line", line}, {"seed", seed}, {"doc", printable(c.doc)}, {"doc_hex", hex(c.doc)}, {"encoding", c.enc},
                                            {"failing", tags}, {"n_failing", kv.second.size()}, {"n_configs", applicable}, {"expected", firstExp[kv.first]}, {"got", firstGot[kv.first]}}}});
